@@ -401,9 +401,11 @@ theorem joinAdopted_run (cfg : Cfg) (evs : List Ev) : joinAdopted (toMSteps (run
       simp only [step]
       split
       · rfl
-      · split
-        · simp [snap]
-        · split <;> simp [snap]
+      · simp only [abandonHb_eq, andThen_fst, andThen_snd]
+        rw [Bool.or_eq_true]; right
+        by_cases hs : s.stopping = true
+        · simp [hs, snap]
+        · cases l <;> simp [hs, snap]
   | _ => rfl
 
 end Afkak.Group
